@@ -728,6 +728,395 @@ def hist_stage_c(ctx, pool):
     ctx.note('C: %d random signer histories (%d certificates) judged by TLC, %d rejected' % (len(hists), len(certs), len(rej)))
 
 
+# ---------------------------------------------------------------- parse / edit histories (NdnPacketsCertParse)
+
+PARSE_FIELDS = {'parse_certificate': ['name', 'content', 'ctype', 'nb', 'na', 'kl', 'sig'],
+                'parse_data': ['name', 'ctype', 'kl', 'sig']}
+ALL_BUFS = ['returned', 'bytes', 'copy', 'bytearray', 'memoryview']
+
+
+def parse_ops(via, f):
+    """the driver's copy of NdnPacketsCertParse!OpsOf (a trace with any other op is rejected by TLC)"""
+    cert = via == 'parse_certificate'
+    if f == 'name':
+        return ['truncate', 'append', 'replace'] + (['assign'] if cert else [])
+    if f == 'kl':
+        return ['truncate', 'append', 'assign', 'drop']
+    if f == 'ctype':
+        return ['assign'] + (['drop'] if cert else [])
+    return ['assign']
+
+
+def issued_values(wire):
+    """The fields of an issued certificate, read from the wire by the strict reader (abstract value 0)."""
+    lay = pk.layout(wire)
+
+    def body(e):
+        return e[2] + e[3], e[2] + e[3] + e[4]
+
+    def comps(lo, hi):
+        return [bytes(wire[c[1]:c[3]]) for c in st.read_elements(wire, lo, hi)]
+    out = {'name': comps(*body(find(lay, 7, 1)[0])), 'content': bytes(val(wire, find(lay, 21, 1)[0])),
+           'ctype': int.from_bytes(val(wire, find(lay, 24, 2)[0]), 'big'),
+           'nb': bytes(val(wire, find(lay, 254)[0])), 'na': bytes(val(wire, find(lay, 255)[0])),
+           'sig': bytes(val(wire, lay[-1])), 'kl': None}
+    kls = find(lay, 28, 2)
+    if kls:
+        inner = st.read_elements(wire, *body(kls[0]))
+        if len(inner) != 1 or inner[0][0] != 7:
+            raise MachineryError('key locator of an issued certificate is not a name')
+        out['kl'] = comps(inner[0][2], inner[0][3])
+    return out
+
+
+def observe(via, obj):
+    """field -> the concrete value the holder of a parse result reads now"""
+    def g(fn):
+        try:
+            return fn()
+        except Exception as e:  # noqa
+            return ('raised', type(e).__name__)
+
+    def kl(si):
+        return None if si.key_locator is None else [bytes(c) for c in si.key_locator.name]
+    if via == 'parse_certificate':
+        return {'name': g(lambda: [bytes(c) for c in obj.name]),
+                'content': g(lambda: bytes(obj.content)),
+                'ctype': g(lambda: None if obj.meta_info is None else obj.meta_info.content_type),
+                'nb': g(lambda: bytes(obj.signature_info.validity_period.not_before)),
+                'na': g(lambda: bytes(obj.signature_info.validity_period.not_after)),
+                'kl': g(lambda: kl(obj.signature_info)),
+                'sig': g(lambda: bytes(obj.signature_value))}
+    name, meta, _content, sp = obj
+    return {'name': g(lambda: [bytes(c) for c in name]), 'ctype': g(lambda: meta.content_type),
+            'kl': g(lambda: kl(sp.signature_info)), 'sig': g(lambda: bytes(sp.signature_value_buf))}
+
+
+def tag_comp(k):
+    w = b'edit-%d' % k
+    return b'\x08' + bytes([len(w)]) + w
+
+
+def edited_value(cur, f, op, k):
+    """The concrete value of field f after the edit `op` of step k, applied to the value cur (what the
+    serial number k stands for in the specification)."""
+    t = tag_comp(k)
+    if f in ('name', 'kl'):
+        if op == 'drop':
+            return None
+        if cur is None or op == 'assign':
+            return [t]
+        if op == 'truncate':
+            return cur[:-2] if f == 'name' else cur[:-1]
+        if op == 'append':
+            return cur + [t]
+        return cur[:-1] + [t]
+    if f == 'ctype':
+        return None if op == 'drop' else 100 + k
+    if f in ('nb', 'na'):
+        return b'2%03d0101T000000' % k
+    return b'%s-%d' % (f.encode(), k)
+
+
+def apply_edit(via, obj, f, op, k):
+    """What a caller does to the result it holds: in-place list operations and assignments to nested fields.
+    Never writes through a view into the wire."""
+    from ndn.encoding import KeyLocator, MetaInfo
+    t = tag_comp(k)
+    cert = via == 'parse_certificate'
+    v = edited_value(None, f, op, k)
+    if f == 'name':
+        nm = obj.name if cert else obj[0]
+        if op == 'assign':
+            obj.name = [t]
+        elif op == 'truncate':
+            del nm[-2:]
+        elif op == 'append':
+            nm.append(t)
+        else:
+            nm[-1:] = [t]
+    elif f == 'kl':
+        si = obj.signature_info if cert else obj[3].signature_info
+        if op == 'drop':
+            si.key_locator = None
+        elif si.key_locator is None or op == 'assign':
+            if si.key_locator is None or k % 2:
+                si.key_locator = KeyLocator()
+            si.key_locator.name = [t]
+        elif op == 'truncate':
+            del si.key_locator.name[-1:]
+        else:
+            si.key_locator.name.append(t)
+    elif f == 'ctype':
+        if not cert:
+            obj[1].content_type = v
+        elif op == 'drop':
+            obj.meta_info = None
+        elif obj.meta_info is None:
+            obj.meta_info = MetaInfo(content_type=v)
+        else:
+            obj.meta_info.content_type = v
+    elif f == 'content':
+        obj.content = v
+    elif f == 'nb':
+        obj.signature_info.validity_period.not_before = v
+    elif f == 'na':
+        obj.signature_info.validity_period.not_after = v
+    elif cert:
+        obj.signature_value = v
+    else:
+        obj[3].signature_value_buf = v
+
+
+def parse_req(rng, pool):
+    """A request for a certificate to be parsed: any issuing function, key type, signer and signature length."""
+    q = rand_req(rng, pool)
+    q['host'] = 'UTC'
+    return q
+
+
+def run_parse_history(ctx, qs, steps, pool, stage):
+    """Issue one certificate per request, then drive steps = [('Parse', c, buf, via) | ('Edit', h, f, op)] on
+    the real parse functions and result objects. After every step every held result is read and each field
+    is projected onto the specification's values (0 = as in the issued wire, k = what the edit of step k
+    produced, -1 = neither). -> {'ev': events with views, 'rep': replay object} or None (issuing failed)."""
+    rng = ctx.rng
+    certs = []
+    for q in qs:
+        live = None
+        if q['sg']['kind'] == 'rsa':        # importing an RSA private key takes ~70 ms: one signer object per run
+            if not hasattr(pool, 'c16_rsa_signer'):
+                pool.c16_rsa_signer = pk.make_inner(q['sg'], pool, [b'\x08\x01k'])
+            kl = pk.name_bytes(q['sg']['kl'], rng)
+            pool.c16_rsa_signer.key_locator_name = kl
+            live = (pool.c16_rsa_signer, kl)
+        b = issue(q, rng, pool, target=False, live=live)
+        if b.exc is not None:
+            return None
+        b.issued = issued_values(b.wire)
+        b.same = bytes(bytearray(b.wire))
+        certs.append(b)
+    rep = {'kind': 'parse-history', 'qs': qs, 'steps': [list(x) for x in steps]}
+    held = []           # handle -> (c, via, result object, buffer it was parsed from)
+    ref = []            # handle -> field -> value in the reference (bookkeeping: input of the next edit)
+    edits = {}          # field -> serial -> concrete value
+    ev = []
+
+    def concrete(c, f, x):
+        return certs[c - 1].issued[f] if x == 0 else edits[f][x]
+
+    def project(c, f, obs, hint):
+        if concrete(c, f, hint) == obs:
+            return hint
+        if certs[c - 1].issued[f] == obs:
+            return 0
+        return next((k for k, v in edits.get(f, {}).items() if v == obs), -1)
+    for k, stp in enumerate(steps, 1):
+        if stp[0] == 'Parse':
+            _, c, buf, via = stp
+            b = certs[c - 1]
+            w = {'returned': b.raw, 'bytes': b.same, 'copy': bytes(bytearray(b.wire)), 'bytearray': bytearray(b.wire),
+                 'memoryview': memoryview(b.same)}[buf]
+            try:
+                obj = sv2.parse_certificate(w) if via == 'parse_certificate' else parse_data(w)
+            except Exception as e:  # noqa
+                ctx.violation('C16/parse-history/%s/exception-%s' % (via, type(e).__name__),
+                              '%s raised %r on an issued certificate (step %d of %s)' % (via, e, k, steps), rep)
+                return None
+            held.append((c, via, obj, w))
+            ref.append({f: 0 for f in PARSE_FIELDS[via]})
+            e = {'a': 'Parse', 'c': c, 'buf': buf, 'via': via}
+        else:
+            _, h, f, op = stp
+            c, via, obj, _ = held[h - 1]
+            edits.setdefault(f, {})[k] = edited_value(concrete(c, f, ref[h - 1][f]), f, op, k)
+            e = {'a': 'Edit', 'h': h, 'f': f, 'op': op}
+            try:
+                apply_edit(via, obj, f, op, k)
+            except Exception as x:  # noqa: the result object is not what the reference says; the views show it
+                e['raised'] = type(x).__name__
+            ref[h - 1][f] = k
+        views = []
+        for i, (c, via, obj, _) in enumerate(held):
+            obs = observe(via, obj)
+            views.append({f: project(c, f, obs[f], ref[i][f]) for f in PARSE_FIELDS[via]})
+        e['views'] = views
+        ev.append(e)
+        for b in certs:     # the premise of the clause: nobody touched the wire
+            if bytes(b.raw) != b.wire or b.same != b.wire:
+                ctx.violation('C16/parse-history/%s/wire-changed' % stp[0], 'the certificate wire changed during %s' % (stp,), rep)
+                return None
+    return {'ev': ev, 'rep': rep}
+
+
+def parse_hist_sig(ev, k):
+    """signature of the first observation of event #k (0-based) that departs from the reference"""
+    e = ev[k]
+    prev = ev[k - 1]['views'] if k else []
+    vias = [x['via'] for x in ev[:k + 1] if x['a'] == 'Parse']
+    for h, v in enumerate(e['views']):
+        for f in PARSE_FIELDS[vias[h]]:
+            x = v[f]
+            mine = e['a'] == 'Edit' and e['h'] == h + 1 and e['f'] == f
+            if h >= len(prev):
+                if x != 0:
+                    return 'C16/parse-history/%s/parse/%s-not-as-issued/%s' % (
+                        vias[h], f, 'value-written-into-an-earlier-result' if x > 0 else 'other-value')
+            elif mine:
+                if x != k + 1:
+                    return 'C16/parse-history/%s/edit/%s-%s/not-what-the-holder-wrote' % (vias[h], f, e['op'])
+            elif x != prev[h][f]:
+                return 'C16/parse-history/%s/held-result/%s-changed-by-%s' % (
+                    vias[h], f, 'a-later-parse' if e['a'] == 'Parse' else 'an-edit-of-another-result')
+    return 'C16/parse-history/%s/rejected' % e['a']
+
+
+def state_views(s):
+    objs, handles = tlaval.seq(s['objs']), tlaval.seq(s['handles'])
+    return [dict(objs[h - 1]['val']) for h in handles]
+
+
+def parse_stage_a(ctx):
+    from concurrent.futures import ThreadPoolExecutor
+    n, m, hh = ctx.pick((2, 4, 3), (2, 5, 4))
+    bufs = '{%s}' % ', '.join('"%s"' % b for b in ctx.pick(['returned', 'copy', 'memoryview'], ALL_BUFS))
+
+    def job(tag, consts, **kw):
+        cp = os.path.join(tlc.BUILD, 'NdnPacketsCertParse_%s_%s.cfg' % (tag, ctx.tier))
+        c = {'NCert': 2, 'MaxSteps': 3, 'MaxHandles': 3, 'Bufs': bufs, 'Dev': '"none"'}
+        c.update(consts)
+        tlc.write_cfg(cp, constants=c, **kw)
+        return tlc.run('NdnPacketsCertParse', cp, workers=2 if tag == 'a' else 1, heavy=False, coverage=tag == 'a')
+    jobs = [('a', {'NCert': n, 'MaxSteps': m, 'MaxHandles': hh}, dict(invariants=['TypeOK'], properties=['ParseReturnsIssued', 'Independent'])),
+            # the properties must be able to fail: TLC refutes the "one remembered result per wire" deviation
+            ('memo1', {'Dev': '"memo"'}, dict(properties=['ParseReturnsIssued'])),
+            ('memo2', {'Dev': '"memo"'}, dict(properties=['Independent']))]
+    jobs += [(w, {}, dict(invariants=[w])) for w in ('W_ReparseAfterEdit', 'W_EditWhileTwoHeld', 'W_TwoCerts')]
+    with ThreadPoolExecutor(max_workers=len(jobs)) as ex:
+        res = list(ex.map(lambda j: job(*j[:2], **j[2]), jobs))
+    r = res[0]
+    ctx.add_tlc('NdnPacketsCertParse NCert=%d MaxSteps=%d MaxHandles=%d' % (n, m, hh), r)
+    if r.violated:
+        ctx.violation('C16/spec/NdnPacketsCertParse/%s' % r.violated, 'TLC: %s violated' % r.violated, {'trace': r.errtrace[:3000]})
+    elif not r.ok:
+        raise MachineryError('NdnPacketsCertParse: TLC failed:\n%s' % r.out[-2000:])
+    idle = [a for a, (d, _t) in (r.coverage or {}).items() if d == 0]
+    if idle or not r.coverage:
+        raise MachineryError('NdnPacketsCertParse: actions never taken: %s' % (idle or 'no coverage table'))
+    for (tag, _c, kw), x in zip(jobs[1:], res[1:]):
+        want = (kw.get('properties') or kw.get('invariants'))[0]
+        if x.violated != want:
+            raise MachineryError('NdnPacketsCertParse: %s is not refuted / reached (%s): %s' % (want, tag, x.violated))
+
+
+def parse_stage_b(ctx, pool):
+    from harness import graph
+    n, m, hh = ctx.pick((2, 3, 3), (2, 4, 3))
+    bufs = ctx.pick(['returned', 'copy', 'memoryview'], ALL_BUFS)
+    cp = os.path.join(tlc.BUILD, 'NdnPacketsCertParse_g_%s.cfg' % ctx.tier)
+    tlc.write_cfg(cp, constants={'NCert': n, 'MaxSteps': m, 'MaxHandles': hh, 'Dev': '"none"',
+                                 'Bufs': '{%s}' % ', '.join('"%s"' % b for b in bufs)}, invariants=['TypeOK'])
+    g = graph.dump('NdnPacketsCertParse', cp, workers=2)
+    ctx.add_tlc('NdnPacketsCertParse graph NCert=%d MaxSteps=%d (%d edges)' % (n, m, g.n_edges), g.tlc)
+    paths = graph.edge_cover_paths(g, max_len=m)
+    done = bad = 0
+    for init, path in paths:
+        steps = [(a,) + tuple(args) for a, args, _ in path]
+        used = max([s_[1] for s_ in steps if s_[0] == 'Parse'] or [0])
+        if len(steps) < 2 or not used:
+            continue
+        h = None
+        for _ in range(5):      # a request the library refuses is the other stages' business
+            h = run_parse_history(ctx, [parse_req(ctx.rng, pool) for _ in range(used)], steps, pool, 'B')
+            if h is not None or ctx.violations:
+                break
+        if h is None:
+            if ctx.violations:
+                continue
+            raise MachineryError('could not issue certificates for a parse history')
+        done += 1
+        ctx.traces += 1
+        ctx.evaluations += sum(len(e['views']) for e in h['ev'])
+        # after every step: what the holders read is what TLC's state says they read
+        for k, ((_a, _args, dst), e) in enumerate(zip(path, h['ev'])):
+            want = state_views(g.state[dst])
+            if e['views'] != want:
+                bad += 1
+                ctx.violation(parse_hist_sig(h['ev'], k), 'parse history %s: after step %d the holders read %s, TLC state says %s '
+                              '(0 = as issued, k = written by the edit of step k, -1 = neither)' % (steps, k + 1, e['views'], want),
+                              dict(h['rep'], at=k + 1))
+                break
+        if any(s_[0] == 'Edit' for s_ in steps[:-1]) and steps[-1][0] == 'Parse':
+            ctx.nt(['B-parse', steps])
+        if done == 1:
+            ctx.sample({'kind': 'B-parse-history', 'steps': steps, 'views': [e['views'] for e in h['ev']]})
+    if not done:
+        raise MachineryError('no parse history replayed')
+    ctx.note('B: %d cover paths of the parse/edit graph (%d states, %d edges) replayed on real parse results: %d departed from TLC\'s states'
+             % (done, len(g.state), g.n_edges, bad))
+
+
+def rand_parse_steps(rng, ncert, nsteps):
+    steps, held = [], []
+    for _ in range(nsteps):
+        if not held or (rng.random() < 0.45 and len(held) < 12):
+            c = rng.randint(1, ncert)
+            if held and rng.random() < 0.6:
+                c = rng.choice(held)[0]          # the same wire again
+            via = rng.choice(['parse_certificate'] * 3 + ['parse_data'])
+            steps.append(('Parse', c, rng.choice(ALL_BUFS), via))
+            held.append((c, via))
+        else:
+            h = rng.randrange(len(held))
+            f = rng.choice(PARSE_FIELDS[held[h][1]])
+            steps.append(('Edit', h + 1, f, rng.choice(parse_ops(held[h][1], f))))
+    return steps
+
+
+def judge_parse(ctx, hists, stage):
+    """TLC (NdnPacketsCertParseTrace) accepts or rejects each recorded history. One corrupted copy of a good history
+    is added: the judge must reject it."""
+    recs = [{'ev': h['ev']} for h in hists]
+    good = next((h for h in hists if len(h['ev']) >= 2), None)
+    if good is not None:
+        bad = json.loads(json.dumps({'ev': good['ev']}))
+        v = bad['ev'][-1]['views'][0]
+        f = sorted(v)[0]
+        v[f] = -1 if v[f] == 0 else 0
+        recs.append(bad)
+    rej = pk.judge(ctx, 'NdnPacketsCertParseTrace', 'NdnPacketsCertParseTrace.cfg', recs, 'c16-parse-' + stage)
+    if good is not None:
+        if not any(i == len(recs) - 1 for i, _ in rej):
+            raise MachineryError('NdnPacketsCertParseTrace accepted a corrupted history')
+        rej = [(i, at) for i, at in rej if i != len(recs) - 1]
+    for i, at in rej:
+        h = hists[i]
+        k = int(str(at).strip() or 0)
+        if not 0 < k <= len(h['ev']):
+            raise MachineryError('NdnPacketsCertParseTrace: rejection without a position: %r' % (at,))
+        ctx.violation(parse_hist_sig(h['ev'], k - 1), 'stage %s: parse history rejected by NdnPacketsCertParseTrace at event %d %s: steps %s'
+                      % (stage, k, h['ev'][k - 1], h['rep']['steps']), dict(h['rep'], rejected_at=k))
+    return rej
+
+
+def parse_stage_c(ctx, pool):
+    hists = []
+    for _ in range(ctx.pick(120, 4000)):
+        ncert = ctx.rng.randint(1, 3)
+        steps = rand_parse_steps(ctx.rng, ncert, ctx.rng.randint(3, ctx.pick(12, 30)))
+        h = run_parse_history(ctx, [parse_req(ctx.rng, pool) for _ in range(ncert)], steps, pool, 'C')
+        if h is None:
+            continue
+        hists.append(h)
+        ctx.traces += 1
+        ctx.evaluations += sum(len(e['views']) for e in h['ev'])
+        ctx.nt(['C-parse', steps])
+    if not hists:
+        raise MachineryError('no parse history recorded')
+    rej = judge_parse(ctx, hists, 'C')
+    ctx.note('C: %d random parse/edit histories judged by TLC, %d rejected' % (len(hists), len(rej)))
+
+
 # ---------------------------------------------------------------- datetime cross-validation
 
 def datetime_records(rng, n):
@@ -795,6 +1184,7 @@ def run(ctx):
         if r.violated:
             ctx.violation('C16/spec/%s' % r.violated, 'TLC: %s violated in NdnPacketsCertMC' % r.violated, {'trace': r.errtrace})
         hist_stage_a(ctx)
+        parse_stage_a(ctx)
     if 'B' in ctx.stages:
         out = os.path.join(tlc.BUILD, 'c16-gen-%s.ndjson' % ctx.tier)
         cfgp = os.path.join(tlc.BUILD, 'NdnPacketsCertGen_%s.cfg' % ctx.tier)
@@ -826,6 +1216,7 @@ def run(ctx):
         # certificates is a predicate over the text found in the wire, evaluated by CertTime!ParseInst)
         report_rejected(ctx, brecs, pk.judge(ctx, 'NdnPacketsCertTrace', 'NdnPacketsCertTrace.cfg', brecs, 'c16-btraces'), 'B')
         hist_stage_b(ctx, pool)
+        parse_stage_b(ctx, pool)
     if 'C' in ctx.stages:
         n = ctx.pick(900, 12000)
         recs = [record(ctx, rand_req(ctx.rng, pool), pool) for _ in range(n)]
@@ -839,6 +1230,7 @@ def run(ctx):
         ctx.note('C: %d recorded issuances judged by TLC, %d rejected' % (len(recs), len(rejected)))
         report_rejected(ctx, recs, rejected, 'C')
         hist_stage_c(ctx, pool)
+        parse_stage_c(ctx, pool)
 
 
 def report_rejected(ctx, recs, rejected, stage):
@@ -887,6 +1279,18 @@ def replay(ctx, path):
         h, certs = run_history(ctx, obj['signer'], obj['init'], steps, shapes, pool, 'replay')
         print('events (kl = locator found in the certificate):', h['ev'])
         rej = judge_histories(ctx, [h], certs, 'replay')
+        for v in ctx.violations:
+            print('reproduced:', v['sig'], '-', v['what'][:300])
+        return 1 if ctx.violations else 0
+    if obj.get('kind') == 'parse-history':
+        steps = [tuple(x) for x in obj['steps']]
+        print('certificates issued for requests:', json.dumps(obj['qs'])[:600])
+        h = run_parse_history(ctx, obj['qs'], steps, pool, 'replay')
+        if h is not None:
+            for k, (stp, e) in enumerate(zip(steps, h['ev']), 1):
+                print('step %d %s -> the holders read %s' % (k, stp, e['views']))
+            print('(0 = the field as in the issued wire, k = the value written by the edit of step k, -1 = neither)')
+            judge_parse(ctx, [h], 'replay')
         for v in ctx.violations:
             print('reproduced:', v['sig'], '-', v['what'][:300])
         return 1 if ctx.violations else 0
